@@ -548,6 +548,50 @@ def check_default(case):
     return info
 
 
+# ------------------------------------------------------------------ wide data, dense events
+
+
+def dense_wide_cells(tier):
+    """MVCAPA on 16-64 channels with events that are weak in every single channel (below the per-channel sparse penalty) but
+    present in all of them, so that only the dense / combined / intermediate penalty detects them: a common shift over 20
+    samples and a one-sample glitch in all channels, on quiet noise (sd 0.1). Deterministic function of the stored seed."""
+    ps = (16, 40) if tier == "quick" else (16, 24, 40, 64)
+    i = 0
+    for p_ in ps:
+        for c_pen, p_pen in (("dense", "dense"), ("combined", "combined"), ("intermediate", "dense"), ("combined", "sparse")):
+            for strength in (0.8, 0.95):
+                i += 1
+                yield {"seed": 23000 + i, "n": 70 + i % 7, "p": p_, "strength": strength, "detector": "MVCAPA", "coll": "L2Saving",
+                       "point": "L2Saving", "msl": 2, "maxl": 1000, "c_scale": 1.0, "p_scale": 1.0, "c_pen": c_pen, "p_pen": p_pen}
+
+
+def check_dense_wide(case):
+    import math
+
+    n, p_ = case["n"], case["p"]
+    rng = np.random.Generator(np.random.PCG64(case["seed"]))
+    X = rng.standard_normal((n, p_)) * 0.1
+    beta = 2 * math.log(p_)  # the smallest per-channel sparse penalty (scale 1, one parameter); savings are len * mean^2
+    L = 20
+    X[30:30 + L] += math.sqrt(case["strength"] * beta / L)   # per-channel saving = strength * beta < beta; p of them together: far above the dense penalty
+    X[12] += math.sqrt(case["strength"] * beta)              # the same for a single sample
+    info = check_builtin(dict({k: v for k, v in case.items() if k not in ("seed", "n", "p", "strength")}, X=X))
+    with sut("MVCAPA.fit/predict (wide data)"):
+        y = build_detector_for_classes(case, X)
+    ev = events_from_predict(y)[0] if len(y) else []
+    info["classes"] = list(info["classes"]) + [f"p={p_}"] + (["dense_collective_event_reported"] if any(b - a >= 10 for a, b in ev) else []) + \
+        (["dense_point_event_reported"] if (12, 13) in [tuple(e) for e in ev] else [])
+    info["nontrivial"] = any(b - a >= 10 for a, b in ev)
+    return info
+
+
+def build_detector_for_classes(case, X):
+    from skchange.anomaly_detectors import MVCAPA
+
+    return MVCAPA(collective_penalty=case["c_pen"], collective_penalty_scale=case["c_scale"], point_penalty=case["p_pen"],
+                  point_penalty_scale=case["p_scale"], min_segment_length=case["msl"], max_segment_length=case["maxl"]).fit(X).predict(X)
+
+
 # ------------------------------------------------------------------ long series
 
 
@@ -648,6 +692,14 @@ def check_long(case):
 
 
 FACETS = [
+    Facet(
+        name="dense_wide_mvcapa", kind="enumerate", enumerate=dense_wide_cells, check=check_dense_wide, exhaustive=True,
+        rule=("MVCAPA (L2 saving; dense / combined / intermediate collective and dense / combined / sparse point penalties, scale 1) on 16 and 40 "
+              "channels (thorough: 16-64), 70-76 samples of quiet noise with a common shift over 20 samples and a one-sample glitch in ALL channels, "
+              "each worth 0.8 or 0.95 of the per-channel sparse penalty per channel; same un-pruned reference and re-evaluation of the reported "
+              "anomalies as builtin_savings; non-trivial = the dense collective event is reported"),
+        shards_quick=8, shards_thorough=8, max_samples=1,
+    ),
     Facet(
         name="exhaustive_small_capa", kind="enumerate", enumerate=small_capa_cases, check=check_builtin, exhaustive=True,
         rule=("CAPA with the L2 saving on every univariate data vector over {-2,0,1,3}^n, n in 2..5 (thorough: 8), (msl,maxl) in "
